@@ -105,3 +105,71 @@ Proof.
     destruct (blen l <=? N) eqn:E; cbn [good]; lia.
   - specialize (Hf u'). rewrite Hp in Hf. contradiction.
 Qed.
+
+(* ---------------------------------------------------------------- the generator programs (C19) *)
+Local Open Scope string_scope.
+Local Open Scope Z_scope.
+Lemma good_bind {A B} (P : A -> Prop) (Q : B -> Prop) (r : ares A) (k : A -> U -> ares B) :
+  good P r -> (forall a u', P a -> good Q (k a u')) -> good Q (abind r k).
+Proof. destruct r as [a u'| |s]; cbn; intros H K; [apply K; exact H|exact I|destruct H]. Qed.
+
+Definition text_ok (N : Z) (s : bytes) : Prop := blen s <= N /\ utf8_valid s = true.
+
+Definition opt_text_ok (N : Z) (v : val) : Prop :=
+  v = VNone \/ exists s, v = VSome (VStr s) /\ text_ok N s.
+
+Lemma arb_opt_str_ok : forall N u, 0 <= N ->
+  good (fun o => opt_text_ok N (vopt o)) (arb_opt_str N u).
+Proof.
+  intros N u HN. unfold arb_opt_str. destruct (arb_bool u) as [b u1]. destruct b.
+  - apply (good_bind (text_ok N)); [apply arbitrary_str_ok; exact HN|].
+    intros s u' Hs. cbn. right. exists s. split; [reflexivity|exact Hs].
+  - cbn. left. reflexivity.
+Qed.
+
+(* relying-party entity: id is valid UTF-8 of at most 256 bytes, name (if any) valid UTF-8 of at most 64 *)
+Theorem arb_rp_ok : forall u,
+  good (fun v => exists id name icon, v = VRec [("id", VStr id); ("name", name); ("icon", icon)] /\
+                 text_ok 256 id /\ opt_text_ok 64 name) (arb_rp u).
+Proof.
+  intros u. unfold arb_rp.
+  apply (good_bind (text_ok 256)); [apply arbitrary_str_ok; lia|]. intros id u1 Hid.
+  destruct (arb_bool u1) as [b u2].
+  apply (good_bind (fun o => opt_text_ok 64 (vopt o))).
+  - destruct b.
+    + apply (good_bind (text_ok 64)); [apply arbitrary_str_ok; lia|].
+      intros s u' Hs. cbn. right. exists s. split; [reflexivity|exact Hs].
+    + cbn. left. reflexivity.
+  - intros name u3 Hn. destruct (arb_bool u3) as [bi u4]. cbn.
+    eexists; eexists; eexists. split; [reflexivity|]. split; assumption.
+Qed.
+
+(* user entity: id at most 64 bytes; icon / name / displayName absent or valid UTF-8 within 128 / 64 / 64 *)
+Theorem arb_user_ok : forall u,
+  good (fun v => exists id icon name dn,
+          v = VRec [("id", VBytes id); ("icon", icon); ("name", name); ("display_name", dn)] /\
+          blen id <= 64 /\ opt_text_ok 128 icon /\ opt_text_ok 64 name /\ opt_text_ok 64 dn) (arb_user u).
+Proof.
+  intros u. unfold arb_user.
+  apply (good_bind (fun b => blen b <= 64)); [apply arbitrary_bytes_ok; lia|]. intros id u1 Hid.
+  apply (good_bind (fun o => opt_text_ok 128 (vopt o))); [apply arb_opt_str_ok; lia|]. intros icon u2 Hi.
+  apply (good_bind (fun o => opt_text_ok 64 (vopt o))); [apply arb_opt_str_ok; lia|]. intros name u3 Hn.
+  apply (good_bind (fun o => opt_text_ok 64 (vopt o))); [apply arb_opt_str_ok; lia|]. intros dn u4 Hd.
+  cbn. eexists; eexists; eexists; eexists. split; [reflexivity|]. repeat split; assumption.
+Qed.
+
+(* hmac-secret input: key coordinates at most 32 bytes, salt at most 80, salt authentication at most 32 *)
+Theorem arb_hmac_ok : forall u,
+  good (fun v => exists x y se sa pp,
+          v = VRec [("key_agreement", VRec [("x", VBytes x); ("y", VBytes y)]);
+                    ("salt_enc", VBytes se); ("salt_auth", VBytes sa); ("pin_protocol", pp)] /\
+          blen x <= 32 /\ blen y <= 32 /\ blen se <= 80 /\ blen sa <= 32) (arb_hmac u).
+Proof.
+  intros u. unfold arb_hmac.
+  apply (good_bind (fun k => blen (fst k) <= 32 /\ blen (snd k) <= 32)); [apply arbitrary_key_ok|]. intros k u1 [Hx Hy].
+  apply (good_bind (fun b => blen b <= 80)); [apply arbitrary_bytes_ok; lia|]. intros se u2 Hse.
+  apply (good_bind (fun b => blen b <= 32)); [apply arbitrary_bytes_ok; lia|]. intros sa u3 Hsa.
+  destruct (arb_bool u3) as [b u4].
+  destruct (if b then let '(v, u') := arb_u32 u4 in (VSome (VZ v), u') else (VNone, u4)) as [pp u5].
+  cbn. do 5 eexists. split; [reflexivity|]. repeat split; assumption.
+Qed.
